@@ -473,9 +473,10 @@ static struct bytes STREAM; /* the bytes of the running case, for C14's echo che
 static size_t FIRST_HOSTILE_OFF, FIRST_HOSTILE_LEN;
 static int FIRST_CLS;
 static int FIRST_IDX;
-static bool SEG_ONLY; /* this execution deviated only by short reads (no faults, no send deviations) */
+static bool SEG_ONLY; /* this execution deviated only by short reads / partial writes (no transport fault) */
 static bool ANY_DEV;
 static int SEND_MODE; /* C14: 0 all, deviations via ex_choose */
+static bool NO_RECV_DEV; /* deviations only on the send side (several partial writes of one PDU) */
 static bool SEND_UNINIT; /* msan: a send buffer contained poisoned bytes */
 
 static void make_stream(const struct stream_case *c, struct bytes *out)
@@ -522,6 +523,8 @@ static int hook_recv_data(size_t want, size_t avail, time_t timeout)
 	int ncuts;
 
 	(void)timeout;
+	if (NO_RECV_DEV)
+		return (int)full;
 	/* options: 0 = deliver all; then short reads; then the four faults */
 	/* all-cuts: every cut position for reads of up to 33 bytes (every PDU-internal boundary of the fixed-size
 	 * PDUs); for longer reads the 16 first and 16 last positions */
@@ -596,11 +599,13 @@ static int hook_send(const void *buf, size_t len, time_t timeout)
 		if (c == 0)
 			return (int)len;
 		ANY_DEV = true;
-		SEG_ONLY = false;
+		/* a partial write is a segmentation of the output: everything that holds for the undisturbed run
+		 * must still hold (same bytes on the wire); only a transport error changes the outcome */
 		if (len > 1 && c == 1)
 			return 1;
 		if (len > 1 && c == 2)
 			return (int)(len / 2);
+		SEG_ONLY = false;
 		return TR_ERROR;
 	}
 	return (int)len;
@@ -970,6 +975,7 @@ static void run_cases(void)
 		ex_parse_choices(js, "choices", rpre, &nrpre);
 	}
 	SEND_MODE = !strcmp(PROP, "C14") && !v_flag("no-send-dev");
+	NO_RECV_DEV = v_flag("no-recv-dev");
 
 #define RUN_CASE()                                                              \
 	do {                                                                    \
